@@ -351,6 +351,8 @@ def run_check(args):
             expect = ['crash']
         elif mode == 'oserror-sweep':
             expect = list(camp.get('only_calls') or ['mkdir', 'gzwrite'])
+            if expect == ['@cache']:
+                expect = ['rename', 'gzopen_w', 'gzwrite', 'gzclose']
             if camp.get('torn', True) is False:
                 expect = [e for e in expect if not e.startswith('gz')]
         elif camp['profile'] == 'C15':
